@@ -33,7 +33,7 @@ func selfTestImpl(prop, dir string) any {
 		}
 	}
 	res := make([]mutantResult, len(ms))
-	sem := make(chan struct{}, 4) // each variant is type-checked from source (about 3 GB, 15 s; twice that when the second pass runs)
+	sem := make(chan struct{}, 3) // each variant is type-checked from source (about 3 GB, 15 s); a variant that stays open goes through up to four normal forms (up to ~13 GB, a minute or more)
 	var wg sync.WaitGroup
 	for i, m := range ms {
 		wg.Add(1)
